@@ -230,3 +230,37 @@ CLAIMS = {
 }
 
 NOT_APPLICABLE = {p: PENDING for p in ["C%02d" % i for i in range(1, 21)]}
+
+
+# ------------------------------------------------------------------------------------------------------------------
+# Rules added after the first build (see DESIGN.md section 9): appended to the claim texts above
+# ------------------------------------------------------------------------------------------------------------------
+_ADDED = {
+    "C01": " Also decides (A9) that the self-paired classes MatMul, RightMatMul and Multiply use the conjugate (transpose) of their array exactly when their adjoint/conj flag is "
+           "set - the flag the adjoint constructor toggles - so a missing or input-dependent conjugate is reported.",
+    "C02": " Also decides (M3) that no returned value is selected by a branch on the input's dtype or values (piecewise maps are not C-linear), and (M5) that no buffer allocated "
+           "with empty/empty_like can reach an output without being overwritten in full; overwrite_* switches of scipy/numpy count as writes to the operand.",
+    "C03": " Also decides that Add/Hstack sum block results out of place (G2a), that Vstack/Diag store (slice_k, block_k) into one buffer of shape self.oshape whose dtype is taken "
+           "and widened from the block results (G2d/G2h), and that blocks are flattened exactly when the output is flat, in C order.",
+    "C04": " Also decides (N3b) that toeplitz_psf itself is the documented nufft_adjoint(nufft(delta)) pipeline on the 2x grid of the whole input shape.",
+    "C06": " Also decides (U5) that the Kaiser-Bessel kernel is the Abramowitz-Stegun polynomial form of I0(beta sqrt(1 - x^2)); constant-range loops are unrolled, so a series "
+           "written as a loop is compared term by term with the documented polynomial.",
+    "C15": " Also decides (T3z, a must-alias analysis over every method of every Alg subclass) that no progress measure is a difference of two names for the same storage: a "
+           "'snapshot' bound without a copy, or a shallow list copy whose elements are afterwards overwritten in place, makes the difference zero for every input.",
+    "C19": " Also decides (Q5) that ab2rf emits for each step the hard pulse 2 atan2(|s|, c) exp(i angle(s)) of the very matrix (c, s) it peels (one conjugation convention for the "
+           "recursion and the pulse). State variables, regularisers and temporaries are identified by their role in the data flow, never by their names.",
+    "C20": " For min_trap_grad the amplitude and slew clauses are decided too: the plateau is guarded by max(flat) <= gmax or built with ceil(area/gmax/dt) samples (Z4), and the ramps "
+           "rise to exactly the plateau in ceil(A/dgdt/dt) steps (Z5), both by the lemma Y/ceil(Y/L) <= L; the designers carry no memoising decorator (Z6).",
+}
+_NOTE_REPLACED = {
+    "C20": "NOT decided: the amplitude and slew bounds of trap_grad (its final rescaling by area/(sum(pulse) dt) is an inequality over ceil-rounded runtime quantities with no sound "
+           "static bound in reach) and the k-space increments of spokes_grad. Trusted: numpy linspace/concatenate semantics; the arithmetic lemma ceil(X) >= X; divisions are by non-zero "
+           "finite scalars. Paths on which trap_grad reads its ramp-sampling flag before binding it, or branches against the constant just assigned to it, cannot return and are skipped.",
+}
+for _k, _v in _ADDED.items():
+    CLAIMS[_k]["text"] = CLAIMS[_k]["text"] + _v
+for _k, _v in _NOTE_REPLACED.items():
+    CLAIMS[_k]["note"] = _v
+for _k in CLAIMS:
+    CLAIMS[_k]["note"] = CLAIMS[_k]["note"] + " Local variable names are never relied on: values are identified by role (what is returned, passed on, or stored) or after aligning the " \
+        "function with the rule's reference text; the whole-tree rewrites of tools/benign_global.py (re-emission, renaming of every local, branch and comparison flipping, hoisted returns) leave every check silent."
